@@ -708,7 +708,11 @@ pub fn misuse_checks(sim: &mut Sim, ex: &mut Exercised) -> u64 {
     let ready = &q0.1;
     let running = &q0.2;
     let cleanup = &q0.3;
-    let mut calls: Vec<(String, u8, usize)> = vec![("event_startup".into(), 0, 0)];
+    // before the start-up, event_startup is the one legal call
+    let mut calls: Vec<(String, u8, usize)> = if sim.startup_done { vec![("event_startup".into(), 0, 0)] } else { vec![] };
+    if !sim.startup_done {
+        ex.hit("C20.before-startup");
+    }
     for j in 0..n {
         let id = &cfg.graph.jobs[j].id;
         if !ready.contains(id) {
